@@ -1,5 +1,7 @@
 import Varpulis.Lemmas.Zdd
 import Varpulis.Lemmas.ZddTable
+import Varpulis.Lemmas.ZddIter
+import Varpulis.Lemmas.ZddCache
 /-!
 # C06 — ZDD operations implement set-family algebra exactly
 
@@ -159,6 +161,42 @@ theorem zdd_pwo_refines (self : ZddS) (hs : self.OK) (var : Nat) :
 theorem zdd_count_contains_refine (self : ZddS) (hs : self.OK) (q : List Nat) :
     self.count = some (Zdd.count self.den) ∧ self.contains q = some (Zdd.contains self.den (normalize q)) :=
   ⟨ZddS.count_spec hs, ZddS.contains_spec hs q⟩
+
+/-! ### iteration and `count_uncached` at table level -/
+
+/-- `arena.iter(h).collect()` through the `ArenaIterator` step machine is the family in `sets` order -/
+theorem arena_iteration_refines (s : Arena) (hs : s.OK) (a : Ref) (ha : Valid s.table a) :
+    s.iterAll a = some (sets (treeOf s.table a)) := Arena.iterAll_spec hs ha
+
+/-- `Zdd::iter().collect()` / `to_sets` through the `ZddIterator` step machine -/
+theorem zdd_iteration_refines (z : ZddS) (hz : z.OK) : z.toSets = some (sets z.den) := ZddS.toSets_spec hz
+
+/-- `count_uncached` (per-call cache instead of `count_cache`) is the count of the denoted tree -/
+theorem arena_count_uncached_refines (s : Arena) (hs : s.OK) (a : Ref) (ha : Valid s.table a) :
+    s.countUncached a = some (Zdd.count (treeOf s.table a)) := Arena.countUncached_spec hs ha
+
+/-! ### the caches are maps: no key is ever inserted twice -/
+
+/-- `Arena.KeysNodup`: in each of the four persistent caches every key occurs at most once. It holds initially
+and is kept by every arena operation (a key is inserted only after a miss, and the recursive calls in
+between only insert keys of strictly smaller node-id rank), so modelling `FxHashMap` by an association
+list loses nothing — not even `len()`. -/
+theorem arena_caches_functional (s : Arena) (hs : s.OK) (hk : s.KeysNodup) (a b : Ref) (ha : Valid s.table a)
+    (hb : Valid s.table b) (v : Nat) (l : List Nat) (live : List Ref) :
+    Arena.KeysNodup {} ∧
+    (∀ s' r, s.union a b = some (s', r) → s'.KeysNodup) ∧ (∀ s' r, s.inter a b = some (s', r) → s'.KeysNodup) ∧
+    (∀ s' r, s.diff a b = some (s', r) → s'.KeysNodup) ∧ (∀ s' r, s.pwo a v = some (s', r) → s'.KeysNodup) ∧
+    (∀ s' k, s.count a = some (s', k) → s'.KeysNodup) ∧ (s.singleton v).1.KeysNodup ∧ (s.fromSet l).1.KeysNodup ∧
+    s.gcCachesOnly.KeysNodup ∧ (∀ s' roots, s.gc live = some (s', roots) → s'.KeysNodup) := by
+  refine ⟨Arena.keysNodup_empty, fun _ _ h => Arena.union_keys hs hk ha hb h, fun _ _ h => Arena.inter_keys hs hk ha hb h,
+    fun _ _ h => Arena.diff_keys hs hk ha hb h, fun _ _ h => Arena.pwo_keys hs hk ha v h,
+    fun _ _ h => Arena.count_keys hs hk ha h, ⟨hk.u, hk.i, hk.d, hk.c⟩, ⟨hk.u, hk.i, hk.d, hk.c⟩,
+    ⟨List.nodup_nil, List.nodup_nil, List.nodup_nil, List.nodup_nil⟩, ?_⟩
+  intro s' roots h
+  simp only [Arena.gc] at h
+  cases hr : remapAll s.table #[] [] live with
+  | none => simp [hr] at h
+  | some x => simp [hr] at h; obtain ⟨rfl, _⟩ := h; exact ⟨List.nodup_nil, List.nodup_nil, List.nodup_nil, List.nodup_nil⟩
 
 /-- every tree denoted by a standalone `Zdd` or an arena handle satisfies the ordering premise
 `Ord 0` of the tree-layer theorems above -/
